@@ -562,6 +562,9 @@ def check_keyword_operands(run: Run, m, tt, rule: str) -> None:
         attrs = _attrs(searched)
         if "args" not in attrs:
             continue
+        exprs_ = [searched] + [binds[x.id][0] for x in ast.walk(searched) if isinstance(x, ast.Name) and len(binds.get(x.id, [])) == 1]
+        if any(isinstance(c_, (ast.ListComp, ast.GeneratorExp)) and any(g.ifs and any(isinstance(y, ast.Attribute) and y.attr == "keywords" for y in ast.walk(g.iter)) for g in c_.generators) for e_ in exprs_ for c_ in ast.walk(e_)):
+            raise AnalysisError("process_method_call searches only some of the call's keyword values for a lambda (a filtered comprehension over .keywords): which ones cannot be decided here")
         # only the search that decides `full_type_resolution` (another one merely words a warning)
         if not (direct or any(isinstance(x, ast.Name) and x.id in flag_names for k in fed for x in ast.walk(k.value))):
             continue
